@@ -76,6 +76,13 @@ func (eng *Engine) verifyFunction(fn *ssa.Function, c *FuncContract, checkLocks 
 	for _, p := range fn.Params {
 		v := e.freshValue(st, p.Type(), "arg."+p.Name())
 		zeroSliceOffsets(&v)
+		if sl, ok := v.T.Underlying().(*types.Slice); ok {
+			if bt, ok := sl.Elem().Underlying().(*types.Basic); ok && bt.Kind() == types.Uint8 {
+				// the ghost content string of a byte slice's backing array covers the slice
+				arr := e.cur(st, "ghost:bytes$str", SStr, false)
+				st.assert(Ge(App(SInt, "str.len", Select(arr, sliceBase(v))), Add(sliceOff(v), sliceLen(v))))
+			}
+		}
 		args = append(args, v)
 	}
 	var bind []Value
